@@ -10,7 +10,7 @@ ROOT=$(cd "$(dirname "$0")/.." && pwd)
 TAG=$(echo "$REPO" | md5sum | cut -c1-8)
 B=$ROOT/build/$V-$TAG
 case $V in
-  asan)  CF="-O1 -g -fno-omit-frame-pointer -fsanitize=address,undefined -fno-sanitize-recover=undefined -DLIBSNDFILE_VERIF=1" ;;
+  asan)  CF="-O1 -g -fno-omit-frame-pointer -fsanitize=address,bounds,null -fno-sanitize-recover=bounds,null -DLIBSNDFILE_VERIF=1" ;;
   nosse) CF="-O2 -g -U__SSE2__ -mno-sse2 -mfpmath=387 -DLIBSNDFILE_VERIF=1" ;;
   fast)  CF="-O2 -g -DLIBSNDFILE_VERIF=1" ;;
   *) echo "unknown variant $V" >&2 ; exit 2 ;;
@@ -31,7 +31,7 @@ SRC=$ROOT/harness/sfdrive.c
 if [ ! -x "$OUT" ] || [ "$SRC" -nt "$OUT" ] || [ "$ROOT/harness/sfdrive_cmd.inc" -nt "$OUT" ] || [ "$LIB" -nt "$OUT" ]; then
   WRAP="-Wl,--wrap=malloc -Wl,--wrap=calloc -Wl,--wrap=realloc -Wl,--wrap=free -Wl,--wrap=time -Wl,--wrap=gettimeofday"
   case $V in
-    asan) SAN="-fsanitize=address,undefined"; WRAP="-Wl,--wrap=time -Wl,--wrap=gettimeofday -DSFD_NO_MALLOC_WRAP=1" ;;
+    asan) SAN="-fsanitize=address,bounds,null"; WRAP="-Wl,--wrap=time -Wl,--wrap=gettimeofday -DSFD_NO_MALLOC_WRAP=1" ;;
     *) SAN="" ;;
   esac
   clang $CF $SAN -I"$REPO/include" -I"$B/include" -o "$OUT.tmp" "$SRC" "$LIB" $WRAP -lm -lpthread 2> "$B/sfdrive.log" \
